@@ -16,6 +16,7 @@ import (
 	"github.com/go-i2p/common/lease_set2"
 	"github.com/go-i2p/common/offline_signature"
 	"github.com/go-i2p/common/router_address"
+	"github.com/go-i2p/common/router_identity"
 	"github.com/go-i2p/common/router_info"
 	"github.com/go-i2p/common/signature"
 
@@ -132,14 +133,30 @@ func runC14(c *core.Ctx) {
 			return s, len(rem), err
 		}
 		c14Chain(c, "keys_and_cert.NewKeysAndCert", sh, enc, k.Validate, k.Bytes, reparseKAC)
-		if !rm.ProhibitedInDestination(sig, cr) {
-			if d, ok, err := lib.BuildDestination(m); ok && err == nil {
-				c14Chain(c, "destination.NewDestination", sh, enc, d.Validate, d.Bytes, reparseKAC)
+		// every pair is offered to the identity constructors, the prohibited ones too: whatever a
+		// constructor returns must validate and come back through the structure's OWN parser
+		reparseDest := func(b []byte) ([]byte, int, error) {
+			p, rem, err := destination.ReadDestination(b)
+			if err != nil {
+				return nil, 0, err
 			}
+			s, err := p.Bytes()
+			return s, len(rem), err
 		}
-		if !rm.ProhibitedInRouterIdentity(sig, cr) {
-			if d, ok, err := lib.BuildRouterIdentity(m, i%2); ok && err == nil {
-				c14Chain(c, "router_identity.NewRouterIdentity", sh, enc, d.Validate, d.Bytes, reparseKAC)
+		reparseRI := func(b []byte) ([]byte, int, error) {
+			p, rem, err := router_identity.ReadRouterIdentity(b)
+			if err != nil || p == nil {
+				return nil, 0, fmt.Errorf("ReadRouterIdentity: %v", err)
+			}
+			s, err := p.Bytes()
+			return s, len(rem), err
+		}
+		if d, ok, err := lib.BuildDestination(m); ok && err == nil && d != nil {
+			c14Chain(c, "destination.NewDestination", sh, enc, d.Validate, d.Bytes, reparseDest)
+		}
+		for variant := 0; variant < 2; variant++ {
+			if d, ok, err := lib.BuildRouterIdentity(m, variant); ok && err == nil && d != nil {
+				c14Chain(c, []string{"router_identity.NewRouterIdentity", "router_identity.NewRouterIdentityFromKeysAndCert"}[variant], sh, enc, d.Validate, d.Bytes, reparseRI)
 			}
 		}
 		// (c) key length not matching its type: constructor and validator alike
